@@ -339,6 +339,44 @@ pub fn run(args: &Args) -> Report {
             }
         }
     }
+    // the same fault inside A2ML (its tokenizer resolves /include on its own): a definition file that includes itself,
+    // a cycle through a second file, and a proper chain of three files as the positive case
+    let head = "ASAP2_VERSION 1 71\n/begin PROJECT p \"\"\n/begin MODULE m \"\"\n/begin A2ML\n/include x.aml\n/end A2ML\n/begin IF_DATA 5 /end IF_DATA\n/end MODULE\n/end PROJECT\n";
+    for (k, (files, cyclic)) in [
+        (vec![("main.a2l".to_string(), head.to_string()), ("x.aml".to_string(), "/include x.aml\n".to_string())], true),
+        (vec![("main.a2l".to_string(), head.to_string()), ("x.aml".to_string(), "/include \"y.aml\"\n".to_string()), ("y.aml".to_string(), "struct s { int; };\n/include x.aml\n".to_string())], true),
+        (vec![("main.a2l".to_string(), head.to_string()), ("x.aml".to_string(), "struct s { int; };\n/include y.aml\n".to_string()), ("y.aml".to_string(), "/include z.aml\n".to_string()), ("z.aml".to_string(), "block \"IF_DATA\" struct s;\n".to_string())], false),
+    ]
+    .into_iter()
+    .enumerate()
+    {
+        let dir = root.join(format!("amlcycle{k}"));
+        write_files(&dir, &files);
+        let input = describe(&files);
+        rep.case(&input, true);
+        rep.bump("a2ml-include-cycle");
+        std::fs::write(&current, &input).ok();
+        let main_path = dir.join("main.a2l");
+        for strict in [false, true] {
+            match catch(|| a2lfile::load(&main_path, None, strict)) {
+                Err(p) => rep.fail("panic", input.clone(), format!("A2ML include chain, strict={strict}: {p}")),
+                Ok(Ok((a, log))) => {
+                    let valid = a.project.module[0].if_data.first().map(|i| i.ifdata_valid).unwrap_or(false);
+                    if cyclic && (strict || log.is_empty() || valid) {
+                        rep.fail("a2ml-cycle-accepted", input.clone(), format!("an A2ML file that includes itself is accepted (strict={strict}, {} log entries, IF_DATA valid={valid})", log.len()));
+                    }
+                    if !cyclic && (!log.is_empty() || !valid) {
+                        rep.fail("a2ml-include-chain", input.clone(), format!("a chain of three A2ML include files is not resolved (strict={strict}, {} log entries, IF_DATA valid={valid})", log.len()));
+                    }
+                }
+                Ok(Err(e)) => {
+                    if !(cyclic && strict) {
+                        rep.fail("a2ml-include-chain", input.clone(), format!("load fails (strict={strict}): {e}"));
+                    }
+                }
+            }
+        }
+    }
     if let Some(c) = old_cwd {
         let _ = std::env::set_current_dir(c);
     }
